@@ -115,7 +115,9 @@ def c08_schur_code(ctx, shape):
 
 
 def _solve_cases(tier):
-    out = [dict(shape=s, scale=1.0) for s in (_shapes(tier) if tier != "quick" else [(5,), (3, 2), (1, 4), (4, 4), (2, 2, 2), (2, 1, 3)])]
+    out = [dict(shape=s, scale=1.0) for s in (_shapes(tier) if tier != "quick" else [(5,), (3, 2), (1, 4), (4, 4), (2, 2, 2), (2, 1, 3), (11, 10)])]
+    if tier != "quick":
+        out += [dict(shape=s, scale=1.0) for s in [(11, 10), (16, 18), (7, 8, 6)]]        # above pyamg's max_coarse: multi-level hierarchies
     # fine physical resolution: right-hand sides of tiny magnitude (absolute tolerances must not be mistaken for relative ones)
     out += [dict(shape=s, scale=1e-4) for s in [(4, 4), (3, 2, 2)]]
     return out
@@ -148,7 +150,7 @@ def c08_solve(ctx, shape, scale):
     def ens(label, cond, combo=None):
         ctx.ensure(label, cond)
         if not cond:
-            (bad_known if (big and combo is not None and combo[0] == "flux_reduced" and combo[1] in ("amg", "cg")) else bad_other).append(label)
+            (bad_known if (big and combo is not None and combo[0] == "flux_reduced" and combo[1] == "cg") else bad_other).append(label)
     for k, (J, r, _) in enumerate(systems):
         sols = {}
         for c, w in ws.items():
@@ -164,8 +166,8 @@ def c08_solve(ctx, shape, scale):
         for c, x in sols.items():
             ens(f"system {k}: {c} agrees with the direct full solve", float(np.linalg.norm(x - x0)) <= 1e-5 * max(1.0, float(np.linalg.norm(x0))), c)
         ref.append(x0)
-    # recorded known finding: the flux-eliminated system keeps the multiplier row (indefinite saddle point); AMG / AMG-preconditioned CG do not
-    # converge on it once the hierarchy has more than one level (> 100 unknowns)
+    # recorded known finding: the flux-eliminated system keeps the multiplier row (indefinite saddle point); AMG-preconditioned CG does not
+    # converge on it once the hierarchy has more than one level (> 100 unknowns).  (Stationary AMG does converge, slowly: not part of the finding.)
     ctx.witness("flux_reduced_iterative_above_100_unknowns", bool(bad_known) and not bad_other)
     ctx.ensure("no module- or class-level state written by building / using solver objects (frame)",
                frame.diff(before, frame.snapshot(["darsia.measure.wasserstein", "darsia.utils.fv", "darsia.utils.grid"])) == [])
